@@ -112,7 +112,7 @@ def mesh_of(info, pars, dim):
     return get_mesh(info, p, dim=dim)
 
 
-def build_case(kernel, info, dim, q, pars, cutoff, mode, rng, cap, with_runs=True):
+def build_case(kernel, info, dim, q, pars, cutoff, mode, rng, cap, with_runs=True, leaf_fn=None):
     """Run the implementation and collect everything the Coq case needs.
     Returns (case dict | None, oracle_result dict)."""
     from sasmodels.direct_model import call_kernel, call_Fq
@@ -160,7 +160,11 @@ def build_case(kernel, info, dim, q, pars, cutoff, mode, rng, cap, with_runs=Tru
                     jit[p.name] = float(v[i])
                 else:
                     pv[p.name] = float(v[i])
-            leaves.append(sas.leaf_eval(kernel, pv, jit, mode, nq, scalars))
+            if leaf_fn is not None:      # leaves from the definition's own formulas, not from the kernel
+                full = dict(scalars); full.update(pv)
+                leaves.append(leaf_fn(full, mode, q))
+            else:
+                leaves.append(sas.leaf_eval(kernel, pv, jit, mode, nq, scalars))
     # --- oracle: the property's formula, straight from the text
     wn = wf = ws = wr = 0.0
     f2 = [0.0] * nq
@@ -222,6 +226,92 @@ def build_case(kernel, info, dim, q, pars, cutoff, mode, rng, cap, with_runs=Tru
     return case, out
 
 
+
+# ---- synthetic definitions whose single-particle functions are known independently of the kernel -----------
+# A hollow sphere written in the three documented ways (inline strings, c_code, separate .c file) and once
+# with an amplitude function.  F^2, V_form, V_shell and R_eff at a mesh point are evaluated here in Python
+# from the formulas below, so "the model's own scattering and (shell) volume" is checked against the
+# definition, not against what the compiled kernel says about itself.
+_HOLLOW_HEAD = """
+from numpy import inf
+name = "{name}"
+title = "C01 hollow probe ({flavour})"
+description = "rational hollow-sphere-like form factor with distinct form and shell volumes"
+category = "shape:sphere"
+parameters = [
+    ["sld", "1e-6/Ang^2", 2.0, [-inf, inf], "sld", ""],
+    ["sld_solvent", "1e-6/Ang^2", 5.0, [-inf, inf], "sld", ""],
+    ["radius", "Ang", 30.0, [0, inf], "volume", ""],
+    ["thickness", "Ang", 8.0, [0, inf], "volume", ""],
+    ["fuzz", "", 0.3, [0, inf], "", "non-volume parameter"],
+]
+radius_effective_modes = ["outer radius", "core radius"]
+valid = "thickness < 2.0*radius"
+"""
+_C_FORM = "return 4.18879020478639*(radius+thickness)*(radius+thickness)*(radius+thickness);"
+_C_SHELL = "return 4.18879020478639*((radius+thickness)*(radius+thickness)*(radius+thickness) - radius*radius*radius);"
+_C_REFF = "return mode == 1 ? radius + thickness : radius;"
+_C_IQ = ("const double vs = 4.18879020478639*((radius+thickness)*(radius+thickness)*(radius+thickness) - radius*radius*radius);\n"
+         "    const double a = (sld - sld_solvent)*vs/(1.0 + q*q*(radius+thickness)*(radius+thickness)*(1.0+fuzz));\n")
+
+
+def hollow_defs(pdir):
+    """Write the four plug-ins; return {name: path}."""
+    import os
+    out = {}
+    # 1. inline strings
+    txt = _HOLLOW_HEAD.format(name="verif_hollow_str", flavour="inline strings")
+    # (radius_effective has no inline-string form: it goes through c_code)
+    txt += 'form_volume = """%s"""\nshell_volume = """%s"""\nIq = """%s    return 1e-4*a*a;"""\n' % (_C_FORM, _C_SHELL, _C_IQ)
+    txt += 'c_code = r"""\nstatic double radius_effective(int mode, double radius, double thickness) { %s }\n"""\n' % _C_REFF
+    out["verif_hollow_str"] = txt
+    # 2. c_code
+    sig_v = "double radius, double thickness"
+    sig_q = "double q, double sld, double sld_solvent, double radius, double thickness, double fuzz"
+    ccode = ("static double form_volume(%s) { %s }\nstatic double shell_volume(%s) { %s }\n"
+             "static double radius_effective(int mode, %s) { %s }\nstatic double Iq(%s) {\n    %s    return 1e-4*a*a;\n}\n" % (
+                 sig_v, _C_FORM, sig_v, _C_SHELL, sig_v, _C_REFF, sig_q, _C_IQ))
+    out["verif_hollow_cc"] = _HOLLOW_HEAD.format(name="verif_hollow_cc", flavour="c_code") + 'c_code = r"""\n%s"""\n' % ccode
+    # 3. separate C file
+    with open(os.path.join(pdir, "verif_hollow_src.c"), "w") as f:
+        f.write(ccode)
+    out["verif_hollow_file"] = _HOLLOW_HEAD.format(name="verif_hollow_file", flavour="source file") + 'source = ["verif_hollow_src.c"]\n'
+    # 4. amplitude function
+    fq = ("static double form_volume(%s) { %s }\nstatic double shell_volume(%s) { %s }\n"
+          "static double radius_effective(int mode, %s) { %s }\n"
+          "static void Fq(double q, double *F1, double *F2, double sld, double sld_solvent, double radius, double thickness, double fuzz) {\n"
+          "    %s    *F1 = 1e-2*a; *F2 = 1e-4*a*a;\n}\n" % (sig_v, _C_FORM, sig_v, _C_SHELL, sig_v, _C_REFF, _C_IQ))
+    out["verif_hollow_fq"] = _HOLLOW_HEAD.format(name="verif_hollow_fq", flavour="c_code with Fq") + 'have_Fq = True\nc_code = r"""\n%s"""\n' % fq
+    paths = {}
+    for nm, t in out.items():
+        paths[nm] = os.path.join(pdir, nm + ".py")
+        with open(paths[nm], "w") as f:
+            f.write(t)
+    return paths
+
+
+def hollow_leaf(has_f1):
+    def leaf(p, mode, q):
+        r, t = p["radius"], p["thickness"]
+        if not (t < 2.0 * r):
+            nq = len(q[0])
+            return False, 0.0, [0.0] * (4 + nq * (2 if has_f1 else 1))
+        k = 4.18879020478639
+        vf = k * (r + t) * (r + t) * (r + t)
+        vs = k * ((r + t) * (r + t) * (r + t) - r * r * r)
+        re = (r + t) if mode == 1 else (r if mode == 2 else 0.0)
+        if len(q) == 2:
+            qq = [math.sqrt(float(x) * float(x) + float(y) * float(y)) for x, y in zip(q[0], q[1])]
+        else:
+            qq = [float(x) for x in q[0]]
+        amp = [(p["sld"] - p["sld_solvent"]) * vs / (1.0 + x * x * (r + t) * (r + t) * (1.0 + p["fuzz"])) for x in qq]
+        comps = [1.0, vf, vs, re] + [1e-4 * a * a for a in amp]
+        if has_f1:
+            comps += [1e-2 * a for a in amp]
+        return True, 1.0, comps
+    return leaf
+
+
 def case_to_coq(c):
     leaves = coq_list(["(%s, %s, %s)" % (cbool(v), fhex(pj), flist(cs)) for v, pj, cs in c["leaves"]],
                       "(bool * float * list float)")
@@ -277,8 +367,12 @@ def main(run):
         ("sphere", "1d", dict(radius=-20.0, radius_pd=0.1, radius_pd_n=10, background=0.5, scale=1.0), 0.0, 0),
         ("core_shell_sphere", "1d", dict(radius=-20.0, radius_pd=0.1, radius_pd_n=10, background=0.25, scale=1.0), 0.0, 0),
     ]
-    for name in models:
-        model = sas.load(name)
+    # synthetic definitions with independently known leaves (see hollow_defs)
+    hpaths = hollow_defs(run.scratch.sub("plugins"))
+    leaf_fns = {nm: hollow_leaf(nm.endswith("_fq")) for nm in hpaths}
+    stats["synthetic_definitions"] = sorted(hpaths)
+    for name in list(models) + sorted(hpaths):
+        model = sas.load(hpaths.get(name, name))
         info = model.info
         oriented = any(p.type == "orientation" for p in info.parameters.call_parameters)
         plan = []
@@ -307,7 +401,7 @@ def main(run):
                 for p in info.parameters.call_parameters:
                     pars.setdefault(p.name, p.default)
             evals += 1
-            case, out = build_case(kernel, info, dim, q, pars, cutoff, mode, rng, cap)
+            case, out = build_case(kernel, info, dim, q, pars, cutoff, mode, rng, cap, leaf_fn=leaf_fns.get(name))
             desc = dict(model=name, dim=dim, pars=pars, cutoff=cutoff, mode=mode, q=[list(map(float, v)) for v in q], tags=tags)
             stats["by_kind"][tags[0]] = stats["by_kind"].get(tags[0], 0) + 1
             if "skip" in out:
